@@ -13,7 +13,17 @@ import re
 
 from .core import norm_src
 
-SHAPE = re.compile(r"^(_?n(q|u|la_\w+)\d?|_n[qu]\d?|n[qu]\d?|[qu]DOF\d?|la_\w+DOF|my_[qu]DOF|name|xi\d?|nla_\w+|\w*_cache|subsystem\d?|frame|rod|system)$")
+SHAPE = re.compile(r"^(_?n(q|u|la_\w+)\d?|_n[qu]\d?|n[qu]\d?|[qu]DOF\d?|la_\w+DOF|my_[qu]DOF|name|xi\d?|nla_\w+|\w*_cache|subsystem\d?|frame|rod|system"
+                   r"|nodalDOF\w*|elDOF\w*|n[qu]_element\w*|nnodes\w*|nelement\w*)$")
+OWNER_ATTRS = ("rod",)
+OWNER_SHAPE = re.compile(r"^(n(?!quadrature)\w*|nodalDOF\w*|elDOF\w*|[qu]DOF|la_\w+DOF|name|mesh\w*|polynomial_degree\w*)$")
+
+
+def callable_like(attr_node):
+    par = getattr(attr_node, "_parent", None)
+    return isinstance(par, ast.Call) and par.func is attr_node
+
+
 CONST_SUB = re.compile(r"^[\d:,\s\-()]+$")
 
 
@@ -35,6 +45,19 @@ def deps(view, name, seen=None):
         for w in nodes:
             if isinstance(w, ast.Attribute) and isinstance(w.value, ast.Name) and w.value.id == sn and isinstance(w.ctx, ast.Load):
                 k = view.kind(w.attr)
+                par0 = getattr(w, "_parent", None)
+                if w.attr in OWNER_ATTRS and isinstance(par0, ast.Attribute) and par0.value is w:
+                    # data of the object this element acts on: self.rod.qp, self.rod.J_dyn, ... (index tables and counts are layout,
+                    # except the number of quadrature points, which selects the quadrature rule together with qp / qw)
+                    nm = par0.attr
+                    if not OWNER_SHAPE.match(nm) and not callable_like(par0):
+                        par1 = getattr(par0, "_parent", None)
+                        sub = None
+                        if isinstance(par1, ast.Subscript) and par1.value is par0:
+                            t = norm_src(par1.slice)
+                            sub = t if CONST_SUB.match(t) else None
+                        out.add((f"{w.attr}.{nm}", sub))
+                    continue
                 if k in ("method", "lambda", "alias"):
                     out |= deps(view, w.attr, seen)
                 elif not SHAPE.match(w.attr):
@@ -47,10 +70,50 @@ def deps(view, name, seen=None):
     return out
 
 
-def covers(primal_deps, item):
+def covers(primal_deps, item, prov=None):
     a, sub = item
     # reading the whole attribute in the primal covers every slice of it
-    return item in primal_deps or (a, None) in primal_deps
+    if item in primal_deps or (a, None) in primal_deps:
+        return True
+    # two attributes that are both SNAPSHOTS (copies made in the constructor) of the same constructor parameters hold the same
+    # data for the life of the object; a plain reference to the caller's object (self.X = X) does not: the caller can change it
+    if prov and a in prov and prov[a][1] == "snapshot":
+        for (b, _) in primal_deps:
+            if b in prov and prov[b][1] == "snapshot" and prov[a][0] and prov[a][0] <= prov[b][0]:
+                return True
+    return False
+
+
+def provenance(view):
+    """attribute -> (constructor parameters it is computed from, 'live' | 'snapshot') from the stores in __init__."""
+    out = {}
+    c, init = view.method("__init__")
+    if init is None:
+        return out
+    params = {a.arg for a in init.args.args[1:]} | {a.arg for a in init.args.kwonlyargs}
+    sn = init.args.args[0].arg if init.args.args else "self"
+    changed = True
+    rounds = 0
+    while changed and rounds < 5:
+        changed = False
+        rounds += 1
+        for st in ast.walk(init):
+            if not (isinstance(st, ast.Assign) and len(st.targets) == 1):
+                continue
+            t = st.targets[0]
+            if not (isinstance(t, ast.Attribute) and isinstance(t.value, ast.Name) and t.value.id == sn):
+                continue
+            v = st.value
+            ps = {w.id for w in ast.walk(v) if isinstance(w, ast.Name) and w.id in params}
+            for w in ast.walk(v):
+                if isinstance(w, ast.Attribute) and isinstance(w.value, ast.Name) and w.value.id == sn and w.attr in out:
+                    ps |= out[w.attr][0]
+            live = isinstance(v, ast.Name) and v.id in params
+            new = (frozenset(ps), "live" if live else "snapshot")
+            if out.get(t.attr) != new:
+                out[t.attr] = new
+                changed = True
+    return out
 
 
 def check(rep, rule, view, rel, cname, primal, deriv, lineno=0):
@@ -59,10 +122,14 @@ def check(rep, rule, view, rel, cname, primal, deriv, lineno=0):
     if not dp and not dd:
         rep.ok(rule, C, f"{deriv} / {primal}: no data attributes read (nothing to compare)", trivial=True)
         return
-    extra = sorted((a, s) for (a, s) in dd if not covers(dp, (a, s)))
+    prov = provenance(view)
+    extra = sorted((a, s) for (a, s) in dd if not covers(dp, (a, s), prov))
     if extra:
         txt = ", ".join(f"self.{a}" + (f"[{s.strip('()')}]" if s else "") for a, s in extra)
+        live = [a for a, s in extra if prov.get(a, (None, None))[1] == "live"]
+        why = (f" (self.{live[0]} is the caller's own object, stored by reference in the constructor, while `{primal}` works on copies made at construction: the two "
+               "disagree as soon as the caller changes its array)") if live else ""
         rep.bad(rule, C, f"{deriv}: reads {txt}", f"`{deriv}` depends on {txt}, which `{primal}` never reads: a derivative cannot depend on data its primal does not depend on, "
-                f"so `{deriv}` differentiates another function than `{primal}`", f"{rel}:{lineno}")
+                f"so `{deriv}` differentiates another function than `{primal}`{why}", f"{rel}:{lineno}")
     else:
         rep.ok(rule, C, f"data read by {deriv} ⊆ data read by {primal} ({len(dd)} ⊆ {len(dp)})")
